@@ -62,6 +62,7 @@ def run(check, prog):
     overlaps(check, prog)
     constructors(check, prog)
     csg_motion(check, prog)
+    bounds_search(check, prog)
     # the region of a centred scatterer moves by the vector: centre' = centre + v
     from . import c19
     c19.scatterer_translated(check, prog)
@@ -738,3 +739,52 @@ def index_background(check, prog):
                   'points outside every domain get the background index; the domains '
                   'are numbered along ensure_array(self.n)', prog.loc(q, fd),
                   fail_detail='returns %s' % show(v)[:200])
+
+
+def bounds_search(check, prog):
+    """K6: the bounding box of a scatterer given only by an indicator function is
+    found by six searches, each along one coordinate axis *through the origin*:
+    the probe point of a search is zero in the two other coordinates, whatever
+    the searches before it found.  (A probe that keeps the extent found along the
+    previous axis lies outside the body, and the box collapses.)"""
+    from hpstatic.terms import is_num
+    q = SC + 'scatterer.find_bounds'
+    if not prog.has_func(q):
+        return
+    fd = prog.func(q)
+    loc = prog.loc(q, fd)
+    it = Interp(prog, max_depth=1)
+    v = it.analyze(q).ret
+    rows = {}
+    t = v
+    # result: the initial 3 x 2 table with rows / entries replaced
+    while t[0] == 'upd' and t[2] == 'item':
+        if is_num(t[3]):
+            row = t[4]
+            while row[0] == 'upd' and row[2] == 'item':
+                if is_num(row[3]):
+                    rows.setdefault((int(t[3][1]), int(row[3][1])), row[4])
+                row = row[1]
+        t = t[1]
+    bad = []
+    for (i, j), val in sorted(rows.items()):
+        ok = val[0] == 'idx' and val[2] == num(i)
+        p = val[1] if ok else None
+        while ok and p[0] == 'loop':
+            step = p[4]
+            # the search moves the probe along axis i only
+            s = step
+            while s[0] == 'upd' and s[2] == 'item':
+                if s[3] != num(i):
+                    ok = False
+                s = s[1]
+            ok = ok and s[0] == 'phi'
+            p = p[3]
+        ok = ok and p[0] == 'upd' and p[2] == 'item' and p[3] == num(i) and \
+            p[1][0] == 'call' and p[1][1] == 'numpy.zeros'
+        if not ok:
+            bad.append('axis %d, %s side: probe starts from %s' % (
+                i, 'upper' if j else 'lower', show(p)[:100] if p else show(val)[:100]))
+    check.require(len(rows) == 6 and not bad, 'K6-bounds-search', 'find_bounds',
+                  'six searches, each from a fresh point on its own axis '
+                  '(%d found)' % len(rows), loc, fail_detail='; '.join(bad[:3]))
